@@ -141,7 +141,10 @@ def oracle_c02(run: Runner, s: core.Stream, pr, r):
         k = run.kind_of(pr, n["run"])
         if k and k[0] == "rom" and run.spec_phys(pr, n["run"]) is None:
             continue   # an address below the bank window (program without a leading *=): no claim (DESIGN section 8)
-        if n["cls"] != "SymbolNode" and n["pass1"] is not None and n["pass1"] != n["run"]:
+        # a statement whose size differs between the passes matters when a position-derived symbol follows it: that
+        # label / incbin node then sits at another address than the one resolved for it (a size change after which
+        # no label is defined shifts nothing a program can observe: DESIGN section 8)
+        if n["cls"] in ("LabelNode", "BinaryNode") and n["pass1"] is not None and n["pass1"] != n["run"]:
             s.violate({"src": pr["src"], "rom": pr["rom"]}, f"{n['cls']} at {hex(n['pass1'])} in both passes", f"label pass {hex(n['pass1'])}, emitted at {hex(n['run'])}",
                       "a statement is placed at a different address than the one it had while labels were resolved (sizes disagree) and the assembly did not fail")
             return
@@ -184,10 +187,50 @@ def oracle_c02(run: Runner, s: core.Stream, pr, r):
         if "." in k:
             base = k.split(".", 1)[1]
             if base in labs and "." not in base:
+                # only when every definition of that name in the program is a label (the name may also be a
+                # constant / symbol / parameter of the scope, whose export is that value)
+                import re
+                if re.search(rf"(?m)\b{re.escape(base)}\s*:?=[^=]|^\s*\.macro\s+\w+\([^)]*\b{re.escape(base)}\b", pr["src"] + "".join((pr.get("files") or {}).values())):
+                    continue
                 cands = [val for name, val in r["labels"] if name == base]
                 if v not in cands:
                     s.violate({"src": pr["src"], "rom": pr["rom"]}, f"{k} in {cands}", v, "a label exported from a named scope has a different value than the label")
                     return
+
+
+def oracle_c01(run: Runner, s: core.Stream, pr, r):
+    """every emitted instruction of the main file: opcode of (mnemonic, operand syntax of its source line, width) and
+    the operand value truncated little-endian; width = the suffix written in the source, else the least of 1..3 bytes
+    holding the (non-negative) value the operand has when the instruction is emitted"""
+    import gen_wild
+    if r["status"] != "ok" or r.get("nodes") is None:
+        return
+    if "_mn" not in run.__dict__:
+        run._mn = set(run.drv.ask(["mnemonics"])[0].split())
+    at = gen_wild.instr_lines(pr["src"], run._mn)
+    ask, recs = [], []
+    for n in r["nodes"]:
+        if n["cls"] != "OpcodeNode" or n.get("file") != "main.s" or n.get("line") not in at or n.get("bytes") is None:
+            continue
+        mn, syn, sfx = at[n["line"]]
+        if mn != n.get("opcode") or mn in BRANCHES or mn in ("brl", "per"):
+            continue
+        v = n.get("value")
+        if syn == "0,0,none,-,-":
+            v = 0
+        elif v is None or (v < 0 and sfx is None):
+            continue
+        ask.append(f"spec.instr {mn} {syn} {sfx or '-'} {v}")
+        recs.append((n, mn, syn, sfx, v))
+    for (n, mn, syn, sfx, v), sp in zip(recs, run.drv.ask(ask)):
+        if sp.startswith("noclaim") or sp == "bad-op":
+            continue
+        exp = sp.split()[1] if sp.startswith("ok") else None
+        if exp is None or exp != n["bytes"].hex():
+            s.violate({"src": pr["src"], "rom": pr["rom"], "line": n["line"], "instruction": pr["src"].split("\n")[n["line"]], "operand_value": v},
+                      exp or "rejected (the 65c816 defines no such mnemonic / shape / width)", n["bytes"].hex(),
+                      "an accepted instruction is not encoded as the ISA opcode for its operand syntax and width followed by the truncated operand")
+            return
 
 
 def oracle_c03(run: Runner, s: core.Stream, pr, r):
@@ -285,6 +328,26 @@ def oracle_c07(run: Runner, s: core.Stream, pr, r):
                 if base + "__size" in root and root[base + "__size"] != len(content):
                     s.violate({"src": pr["src"]}, len(content), root[base + "__size"], "incbin size symbol is not the file length")
                     return
+
+
+def wild_stream(run: Runner, prop: str, tier: str, seed: int, oracles=()):
+    """shadowing-heavy programs (gen_wild): whole-pipeline correspondence + the given per-node oracles"""
+    import gen_wild
+    rng = core.rng_for(seed, prop + "-wild")
+    s = core.Stream("S4-wild", "shadowing-heavy generated programs (a pool of four names reused for constants, symbols, labels, loop variables, macro and block parameters at every nesting level, defined before and after their uses; mostly unsuffixed operands; macros that expand to nothing, splice a block argument several times or apply other macros inside spliced blocks; .text below its .table; included file) through the real assembler with per-node trace and through the model: same writes block by block, labels in order, outcome class; per-node oracles on the accepted ones; non-trivial = distinct (outcome, constructs used)")
+    n = 500 if tier == "quick" else 12000
+    progs = [gen_wild.generate(rng, run.drv) for _ in range(n)]
+    for pr, r, m in run.run(progs):
+        s.cases += 1
+        s.count(r["status"] + (":" + str(r.get("exc")) if r["status"] == "rejected" else ""))
+        s.nontrivial.add((r["status"], r.get("exc"), tuple(sorted(k for k in pr["hist"] if not k.startswith(("instr", "def", "data"))))))
+        run.correspond(s, pr, r, m)
+        for o in oracles:
+            o(run, s, pr, r)
+    if run.skipped:
+        s.count("not-run-after-repeated-timeouts", run.skipped)
+    s.sample({"rom": progs[0]["rom"], "src": progs[0]["src"][:400]})
+    return s
 
 
 def gen_batch(rng, drv, n, **kw):
